@@ -20,6 +20,8 @@ import (
 	"encoding/base64"
 	"runtime"
 	"strconv"
+	"unicode/utf16"
+	"unicode/utf8"
 	"unsafe"
 
 	"github.com/cloudwego/dynamicgo/internal/native/types"
@@ -80,6 +82,86 @@ func decodeString(src string, pos int) (ret int, v string) {
 
 	runtime.KeepAlive(src)
 	return ret, rt.Mem2Str(vv)
+}
+
+func unhex4(s string) (r rune, err error) {
+	if len(s) < 4 {
+		return 0, types.ERR_EOF
+	}
+	for i := 0; i < 4; i++ {
+		c := s[i]
+		switch {
+		case c >= '0' && c <= '9':
+			c -= '0'
+		case c >= 'a' && c <= 'f':
+			c -= 'a' - 10
+		case c >= 'A' && c <= 'F':
+			c -= 'A' - 10
+		default:
+			return 0, types.ERR_INVALID_CHAR
+		}
+		r = r<<4 | rune(c)
+	}
+	return r, nil
+}
+
+// Unquote decodes the body of a JSON string (without the surrounding quotes) like the native
+// implementation does: only the escapes JSON defines (including \/ and UTF-16 surrogate pairs)
+// are accepted, a lone surrogate is an error and all other bytes are copied as they are.
+func Unquote(s string) (string, error) {
+	buf := make([]byte, 0, len(s))
+	for i := 0; i < len(s); {
+		c := s[i]
+		if c != '\\' {
+			buf = append(buf, c)
+			i++
+			continue
+		}
+		if i+1 >= len(s) {
+			return "", types.ERR_EOF
+		}
+		switch c = s[i+1]; c {
+		case '"', '\\', '/':
+			buf = append(buf, c)
+		case 'b':
+			buf = append(buf, '\b')
+		case 'f':
+			buf = append(buf, '\f')
+		case 'n':
+			buf = append(buf, '\n')
+		case 'r':
+			buf = append(buf, '\r')
+		case 't':
+			buf = append(buf, '\t')
+		case 'u':
+			r, err := unhex4(s[i+2:])
+			if err != nil {
+				return "", err
+			}
+			i += 6
+			if utf16.IsSurrogate(r) {
+				// must be a high half followed by the escaped low half
+				if i+2 > len(s) || s[i] != '\\' || s[i+1] != 'u' {
+					return "", types.ERR_INVALID_UNICODE
+				}
+				r2, err := unhex4(s[i+2:])
+				if err != nil {
+					return "", err
+				}
+				if r = utf16.DecodeRune(r, r2); r == utf8.RuneError {
+					return "", types.ERR_INVALID_UNICODE
+				}
+				i += 6
+			}
+			var tmp [utf8.UTFMax]byte
+			buf = append(buf, tmp[:utf8.EncodeRune(tmp[:], r)]...)
+			continue
+		default:
+			return "", types.ERR_INVALID_ESCAPE
+		}
+		i += 2
+	}
+	return rt.Mem2Str(buf), nil
 }
 
 func decodeBinary(src string, pos int) (ret int, v []byte) {
